@@ -12,9 +12,10 @@
 (*  [ev="taskend", c, how, leaves, val]  how the child's COROUTINE ended:  *)
 (*        ok | err | cancelled | native; leaves: error ids it raised       *)
 (*  [ev="bodyexc", g, how, leaves]  the body of the block raised           *)
-(*  [ev="tgexit", t, g, raised, leaves, handles, gc] raised: none | cancel |*)
+(*  [ev="tgexit", t, g, raised, leaves, handles, gc, cc] raised: none|cancel|*)
 (*        native | group | err; handles: seq of [c, status, val, exc]      *)
-(*  [ev="started", c, v, res]  res: ok | err                               *)
+(*  [ev="started", c, v, res, cpc]  res: ok | err; cpc: the caller of start()*)
+(*        has a pending cancellation (TaskInfo.has_pending_cancellation()) *)
 (*  [ev="startret", t, c, res, val, leaves, cdone, gcalled]  start()       *)
 (*        returned: ok(val) | err(leaves / "RuntimeError") | cancelled |   *)
 (*        native; cdone: the child's task is done; gcalled: group scope's  *)
@@ -93,7 +94,7 @@ TGApply(p, e) ==
                IN [p |-> [p EXCEPT !.nstarted[e.c] = @ + 1,
                                    !.startedv[e.c] = IF first THEN e.v ELSE @],
                    bad |-> TNames([FirstStartedAccepted |-> first => e.res = "ok",
-                                   SecondStartedIsError |-> (~first /\ e.res = "ok") => callerGone])]
+                                   SecondStartedIsError |-> (~first /\ e.res = "ok") => (callerGone \/ e.cpc = 1)])]
           [] e.ev = "startret" ->
                LET c == e.c
                    childFailedEarly == p.ended[c] # "no" /\ p.nstarted[c] = 0
@@ -129,7 +130,7 @@ TGApply(p, e) ==
                         [] OTHER -> FALSE
                    \* the group's scope is the innermost scope of the host: leave it
                    i == Len(p.s.sc[e.t])
-                   ps == AbsorbGC([p.s EXCEPT !.sc[e.t] = SubSeq(@, 1, i - 1)], e.gc)
+                   ps == AbsorbGC(AbsorbCC([p.s EXCEPT !.sc[e.t] = SubSeq(@, 1, i - 1)], e.t, e.cc), e.gc)
                    cl == [JoinAll |-> \A c \in mem : p.ended[c] # "no",
                           GroupScopeIsInnermost |-> i >= 1 /\ p.s.sc[e.t][i].n = p.gscope[g],
                           HandleFinal |-> \A h \in hs : p.ended[h.c] = "no" \/ statusOk(h),
